@@ -252,6 +252,21 @@ impl Run {
         });
     }
 
+    /// `par_for` over every integer of lo..=hi without materialising the range (blocks of 4096).
+    pub fn par_range(&self, lo: i128, hi: i128, init: impl Fn() + Sync, f: impl Fn(i128, &mut Local) + Sync) {
+        const B: i128 = 4096;
+        let blocks: Vec<i128> = (0..=((hi - lo) / B)).collect();
+        self.par_for(&blocks, init, |&b, l| {
+            let start = lo + b * B;
+            let end = (start + B - 1).min(hi);
+            let mut a = start;
+            while a <= end {
+                f(a, l);
+                a += 1;
+            }
+        });
+    }
+
     /// Sequential variant (main thread), same Local interface.
     pub fn seq(&self, f: impl FnOnce(&mut Local)) {
         let mut local = Local::new(self);
